@@ -54,7 +54,58 @@ def main(tier, only=None):
         e1.run_set(chk, "c15/emit.c", hs, workers=4)
     if want("unit"):
         unit_family(chk, thorough)
+        tls_family(chk)
     return chk.finish()
+
+
+def tls_family(chk):
+    """Storage duration of _Thread_local objects as an observable of the emitted code (E2): the address a function computes
+    for a thread-local object must FOLLOW the thread pointer (%fs:0) - executed with two different thread pointers the
+    two addresses differ - and the address of an object with static storage duration must not depend on it. The native
+    confirmation runs the function in two threads."""
+    import z3
+    import e2, asmx
+
+    class TlsAddr(e2.Probe):
+        def __init__(self, key, fn, pre, body, tls):
+            self.key, self.fn, self.family, self.tls = "tls/" + key, fn, "tls", tls
+            self.csrc = "%s\nlong %s(void) { %s }\n" % (pre.replace("@", fn), fn, body.replace("@", fn))
+
+        def goals(self, M, finals):
+            TP = M.TP
+            tp2 = z3.BitVec("thread_pointer_of_another_thread", 64)
+            out = []
+            for pi, s in enumerate(finals):
+                if s.dead:
+                    continue
+                rax = s.regs["rax"]
+                rax2 = z3.substitute(rax, (TP, tp2))
+                claim = z3.Implies(TP != tp2, rax != rax2) if self.tls else rax == rax2
+                out.append(e2.Goal("address/p%d" % pi, list(s.pc), claim, {},
+                                   note="thread-local object: one instance per thread" if self.tls else "static storage duration: one instance"))
+            return out
+
+        def runtime_replay(self):
+            driver = ("#include <pthread.h>\nlong %s(void);\nstatic void *th(void *p) { *(long *)p = %s(); return 0; }\n"
+                      "int main(void) { long a = %s(), b = 0; pthread_t t; pthread_create(&t, 0, th, &b); pthread_join(t, 0);\n"
+                      "  return (a != b) == %d ? 0 : 1; }\n" % (self.fn, self.fn, self.fn, 1 if self.tls else 0))
+            return self.csrc, driver
+
+    cases = [
+        ("file-scope", "_Thread_local int t_@ = 3;\n", "return (long)&t_@;", True),
+        ("file-scope-tentative", "_Thread_local int u_@;\n", "return (long)&u_@;", True),
+        ("file-scope-static", "static _Thread_local long v_@ = 4;\n", "return (long)&v_@;", True),
+        ("block-scope-static", "", "static _Thread_local int n = 5; return (long)&n;", True),
+        ("block-scope-static-uninitialised", "", "static _Thread_local long n; return (long)&n;", True),
+        ("block-scope-extern", "_Thread_local int w_@ = 1;\n", "extern _Thread_local int w_@; return (long)&w_@;", True),
+        ("control/static-local-not-thread-local", "", "static int n = 5; return (long)&n;", False),
+        ("control/file-scope-not-thread-local", "int x_@ = 2;\n", "return (long)&x_@;", False),
+    ]
+    P = [TlsAddr(key, "tl%d" % k, pre, body, tls) for k, (key, pre, body, tls) in enumerate(cases)]
+    e2.run_probes(chk, P, chunk=4)
+    chk.bounds.append("tls/*: %d declarations of thread-local (file scope, tentative, static, block-scope static/extern) and ordinary objects: the address computed by the "
+                      "emitted code follows the thread pointer iff the object is _Thread_local (non-PIC local-exec code)" % len(P))
+    chk.functions.update(["parse.c:declaration/global_variable (is_tls propagation, via emitted code)", "codegen.c:gen_addr TLS forms (via emitted code)"])
 
 
 def unit_family(chk, thorough):
